@@ -1,7 +1,9 @@
 import EAO.Model.Assemble
 import EAO.Model.Readout
 import EAO.Model.Translate
+import EAO.Model.Structured
 import EAO.Lemmas.Nodal
+import EAO.Lemmas.Structured
 /-!
 # C01 — nodal balance
 
@@ -78,19 +80,6 @@ theorem nodal_balance_split (intervals : List (List AssetProblem × List Nat)) (
   rw [List.map_congr_left this]
   exact sum_map_zero _
 
-/-- the problem a structured asset hands to the outer portfolio: inner portfolio assembled with the
-    external nodes skipped; all variables re-assigned to the wrapper; non-external nodes renamed
-    `<name>_internal_<node>` and their rows typed internal ('i') -/
-def structured (name : String) (ext : List String) (inner : List AssetProblem) (gridI : List Nat) :
-    AssetProblem :=
-  let P := assemble inner gridI ext
-  { name := name, nodes := ext, c := P.c, l := P.l, u := P.u, rows := P.rows,
-    mapping := P.mapping.map fun m =>
-      match m.node with
-      | some nd => if ext.contains nd then { m with asset := name }
-                   else { m with asset := name, node := some (name ++ "_internal_" ++ nd), kind := .i }
-      | none => { m with asset := name } }
-
 /-- **C01 (structured).**  The wrapped problem is a well-formed asset problem of the outer portfolio
     (its dispatch rows sit at external nodes only), so `nodal_balance` applies to the outer portfolio
     at the external nodes; and every point satisfying its rows balances the inner portfolio at every
@@ -107,22 +96,18 @@ theorem nodal_balance_structured (name : String) (ext : List String) (inner : Li
     rw [assemble_mapping] at hm0
     obtain ⟨a, ha, m', hm', o, rfl⟩ := mem_assembleFrom_mapping inner 0 m0 hm0
     have hw := (hwf a ha m' hm').2
-    cases hnode : m'.node with
-    | none => simp [hnode, structured]
-    | some nd =>
-      by_cases hext : ext.contains nd = true
-      · simp only [shift_node, hnode, hext, if_true, structured]
-        refine ⟨trivial, ?_⟩
-        intro n hk hn
-        have : nd = n := by simpa using hn
-        subst this
-        exact ⟨by simpa using hext, (hw nd hk hnode).2⟩
-      · simp only [shift_node, hnode, hext, structured]
-        refine ⟨by simp, ?_⟩
-        intro n hk
-        simp at hk
+    refine ⟨EAO.Structured.structuredMapRow_asset name ext _, ?_⟩
+    intro n hk hn
+    obtain ⟨hk', hn', hext⟩ := EAO.Structured.structuredMapRow_disp name ext _ n hk hn
+    rw [shift_kind] at hk'
+    rw [shift_node] at hn'
+    show n ∈ ext ∧ _
+    rw [EAO.Structured.structuredMapRow_step, shift_step]
+    exact ⟨hext, (hw n hk' hn').2⟩
   · intro x hx n hn t
-    exact nodal_balance inner gridI ext hnd hwf x hx n hn t
+    have hx' : ∀ r ∈ (assemble inner gridI ext).rows, r.Sat x :=
+      (EAO.Structured.rows_nToS_sat _ x).mp hx
+    exact nodal_balance inner gridI ext hnd hwf x hx' n hn t
 
 /-- non-vacuity: two assets at one node with factors ≠ ±1, a point satisfying the rows, well-formedness -/
 def exA : AssetProblem := { name := "a", nodes := ["n"], c := [1], l := [0], u := [4], rows := [], mapping := [⟨0, "a", some "n", .d, 0, 1/2, false, "disp"⟩] }
